@@ -357,6 +357,9 @@ func (d *DI) evalChunk(c Chunk) (MV, error) {
 		return d.getParam(c.Name)
 	case ChunkFunc:
 		v, err := d.callFunc(c.Name, c.Args)
+		if err == ErrUnpredicted {
+			return MV{}, err
+		}
 		if err != nil {
 			return MV{}, &diError{"cannot execute " + c.Raw + "\x00" + err.Error()} // NUL separates substrings that must all appear
 		}
